@@ -183,6 +183,43 @@ func H_C16_visible(v *V) {
 	}
 }
 
+type c16ND struct {
+	Host  string `long:"host" default:"localhost" description:"DHOST"`
+	Token string `long:"token" description:"DTOKEN"`
+	Port  int    `short:"p" long:"port" description:"DPORT"`
+}
+
+// H_C16_nodefault: help requested on the command line after other options:
+// an option without default shows none - in particular not the value just
+// given - and a declared default is shown unchanged.
+func H_C16_nodefault(v *V) {
+	T := v.String(v.Shape("lv"))
+	for i := 0; i < len(T); i++ {
+		v.Assume(T[i] >= 'a' && T[i] <= 'z')
+	}
+	d := &c16ND{}
+	p := NewNamedParser("prog", HelpFlag)
+	p.AddGroup("Application Options", "", d)
+	var argv []string
+	if v.Choice(2) == 1 {
+		argv = append(argv, "--host=zz"+T)
+	}
+	argv = append(argv, "--token=qq"+T, "-p", "8123", "--help")
+	_, err := p.ParseArgs(argv)
+	t, typed := vErrType(err)
+	v.Assert(err != nil && typed && t == ErrHelp, "the help request is answered with ErrHelp")
+	if err == nil {
+		return
+	}
+	out := err.Error()
+	v.Reach("help")
+	v.ObserveStr("help", out)
+	v.Assert(v.Contains(out, "DTOKEN") && v.Contains(out, "DPORT") && v.Contains(out, "DHOST (default: localhost)"), "descriptions are listed, the declared default beside its description")
+	v.Assert(!v.Contains(out, "qq"+T) && !v.Contains(out, "8123") && !v.Contains(out, "zz"+T), "a value given on the command line is not presented as a default")
+	v.Assert(!v.Contains(out, "DTOKEN (default") && !v.Contains(out, "DPORT (default"), "an option without default shows none")
+}
+
 func init() {
+	vHarnesses["H_C16_nodefault"] = H_C16_nodefault
 	vHarnesses["H_C16_visible"] = H_C16_visible
 }
